@@ -8,6 +8,7 @@ package scheduler
 // dispatcher of a torrent. Nothing here touches /repo; the file is overlay-injected.
 
 import (
+	"bytes"
 	"errors"
 	"fmt"
 	"io"
@@ -238,7 +239,7 @@ func vBlobFor(i, np int) *vBlob {
 	if err != nil {
 		panic(err)
 	}
-	mi, err := core.NewMetaInfoFromBytes(d, content, vPieceLen)
+	mi, err := core.NewMetaInfo(d, bytes.NewReader(content), vPieceLen)
 	if err != nil {
 		panic(err)
 	}
@@ -257,20 +258,20 @@ func (b *vBlob) piece(i int) []byte {
 }
 
 type vWorld struct {
-	clk     *clock.Mock
-	loop    *vLoop
-	sched   *scheduler
-	st      *state
-	cads    *store.CADownloadStore
-	ta      *agentstorage.TorrentArchive
-	mic     *metainfoclient.TestClient
-	np      int
-	blobs   []*vBlob
-	tors    []*vTorrent // last torrent object handed to the scheduler, per blob
-	peers   []*vPeer    // fake peer attached to the current dispatcher, per blob
+	clk      *clock.Mock
+	loop     *vLoop
+	sched    *scheduler
+	st       *state
+	cads     *store.CADownloadStore
+	ta       *agentstorage.TorrentArchive
+	mic      *metainfoclient.TestClient
+	np       int
+	blobs    []*vBlob
+	tors     []*vTorrent // last torrent object handed to the scheduler, per blob
+	peers    []*vPeer    // fake peer attached to the current dispatcher, per blob
 	peerCtrl []*torrentControl
-	npeers  int
-	cleanup func()
+	npeers   int
+	cleanup  func()
 }
 
 var vEpoch = time.Unix(0, 0)
@@ -292,7 +293,7 @@ func newVWorld(seederTTI, leecherTTI time.Duration, np, ntor int) *vWorld {
 		TorrentLog:         log.Config{Disable: true},
 		Log:                log.Config{Disable: true},
 	}
-	pctx, err := core.NewPeerContext(core.HashedPeerIDFactory("verif-local"), "zone1", "verif", "127.0.0.1", 1, false)
+	pctx, err := core.NewPeerContext(core.AddrHashPeerIDFactory, "zone1", "verif", "127.0.0.1", 1, false)
 	if err != nil {
 		panic(err)
 	}
